@@ -1,73 +1,13 @@
-(* C18, cluster leg: the goroutine census of the httpcluster model (ClusterGo.v) is 0 after a clean
-   stop and bounded by the servers currently started-and-not-stopped while running, for every
-   schedule (any sequence of config maps over any ids, restarts of the same id, factory errors,
-   servers that never become ready, slow stops, Stop()/cancel/close at any point). *)
+(* C18, cluster leg: the goroutine census of the httpcluster model (ClusterGo.v) after a clean stop
+   consists only of server goroutines the Runnable contract obliges to end, and is bounded by the
+   servers currently started-and-not-stopped while running, for every schedule (any sequence of
+   config maps over any ids, restarts of the same id, factory errors, servers that never become
+   ready, servers that give up by themselves, slow stops, Stop()/cancel/close at any point). *)
 From Coq Require Import List Arith NArith Bool Lia Permutation.
 From GS Require Import LTS Cluster ClusterLTS ClusterPlan ClusterFix ClusterRun ClusterInv ClusterStep
-     ClusterMain ClusterGo.
+     ClusterMain ClusterRound ClusterRoundB ClusterRoundC ClusterHist ClusterGo ClusterLive.
 Import ListNotations.
 Open Scope N_scope.
-
-Definition greachable (d : bool) (g : gstate) : Prop := reachable (gstep true) (ginit d) g.
-
-(* ---------------------------------------------------------------- projection onto the protocol model *)
-Lemma grun_erase fx : forall ls g g',
-  run (gstep fx) g ls = Some g' -> run (step fx) (g_s g) (erase ls) = Some (g_s g').
-Proof.
-  induction ls as [|l ls IH]; intros g g' H.
-  - injection H as <-. reflexivity.
-  - cbn [run] in H. destruct (gstep fx g l) as [g1|] eqn:E; [|discriminate].
-    destruct l as [bl|i|m h r]; cbn [erase run]; unfold gstep in E.
-    + destruct (step fx (g_s g) bl) as [s'|] eqn:Es; [|discriminate]. injection E as <-.
-      exact (IH _ _ H).
-    + destruct (memN i (g_run g) && negb (memN i (s_unrun (g_s g)))); [|discriminate].
-      injection E as <-. exact (IH _ _ H).
-    + match type of E with (if ?c then _ else _) = _ => destruct c end; [|discriminate].
-      injection E as <-. exact (IH _ _ H).
-Qed.
-
-Lemma greachable_base d g : greachable d g -> exists ls, run (step true) (init d) ls = Some (g_s g).
-Proof. intros [ls H]. exists (erase ls). exact (grun_erase true ls (ginit d) g H). Qed.
-
-Lemma greachable_acct d g : greachable d g -> acct (g_s g).
-Proof. intros H. destruct (greachable_base d g H) as [ls Hr]. exact (acct_reachable d ls _ Hr). Qed.
-
-(* ---------------------------------------------------------------- the instance counter *)
-Lemma next_finish s p : s_next (finish_round s p) = s_next s.
-Proof. reflexivity. Qed.
-Lemma next_next_start s p ts : s_next (next_start s p ts) = s_next s.
-Proof. destruct ts; reflexivity. Qed.
-Lemma next_after_stops s p ts tp : s_next (after_stops s p ts tp) = s_next s.
-Proof. unfold after_stops. destruct ts; [reflexivity|]. destruct (s_delay s); reflexivity. Qed.
-Lemma next_begin s p : s_next (begin_round s p) = s_next s.
-Proof.
-  unfold begin_round. destruct (pending_actions p) as [ts tp].
-  destruct (stop_insts p tp); [|reflexivity].
-  destruct tp; [apply next_next_start|apply next_after_stops].
-Qed.
-Lemma next_move i s : s_next (move_to_stopping i s) = s_next s.
-Proof. unfold move_to_stopping. destruct (find_inst i (s_live s)); reflexivity. Qed.
-
-Ltac brk H :=
-  repeat match type of H with
-         | (match ?x with _ => _ end) = Some _ => destruct x eqn:?; try discriminate H
-         | (if ?x then _ else _) = Some _ => destruct x eqn:?; try discriminate H
-         end.
-
-Lemma step_next fx s l s' :
-  step fx s l = Some s' ->
-  s_next s' = match l with LFactory _ _ _ _ => N.succ (s_next s) | _ => s_next s end.
-Proof.
-  intros H. destruct l; unfold step in H; cbv zeta in H; brk H; injection H as <-;
-    rewrite ?next_begin, ?next_after_stops, ?next_next_start, ?next_move, ?next_finish; reflexivity.
-Qed.
-
-Lemma step_factory_fresh fx s k c i b s' : step fx s (LFactory k c i b) = Some s' -> i = s_next s.
-Proof.
-  intros H. unfold step in H. brk H.
-  repeat match goal with E : _ && _ = true |- _ => apply andb_prop in E as [E ?] end.
-  now apply N.eqb_eq.
-Qed.
 
 (* ---------------------------------------------------------------- server goroutines are distinct instances *)
 Definition J (g : gstate) : Prop :=
@@ -75,17 +15,26 @@ Definition J (g : gstate) : Prop :=
 
 Lemma J_step fx g l g' : J g -> gstep fx g l = Some g' -> J g'.
 Proof.
-  intros [Hnd Hlt] H. destruct l as [bl|i|m h r]; unfold gstep in H.
-  - destruct (step fx (g_s g) bl) as [s'|] eqn:Es; [|discriminate]. injection H as <-.
-    pose proof (step_next fx _ _ _ Es) as Hn. unfold J. cbn [g_s g_run].
-    destruct bl; try (rewrite Hn; split; assumption).
+  intros [Hnd Hlt] H. pose proof (gstep_base fx g l g' H) as Hb.
+  destruct l as [bl| |i|i|i|i| |m h r]; unfold gstep in H.
+  - destruct (gguard g bl); [|discriminate].
+    destruct (step fx (g_s g) bl) as [s'|] eqn:Es; [|discriminate]. injection H as <-.
+    pose proof (step_next fx _ _ _ Es) as Hn. unfold J.
+    destruct bl; cbn [gafter g_s g_run]; try (rewrite Hn; split; assumption).
     apply step_factory_fresh in Es. subst i. rewrite Hn. split.
     + constructor; [|exact Hnd]. intros Hi. apply Hlt in Hi. lia.
     + intros j [<-|Hj]; [lia|]. apply Hlt in Hj. lia.
-  - destruct (memN i (g_run g) && negb (memN i (s_unrun (g_s g)))); [|discriminate]. injection H as <-.
+  - destruct (s_stopreq (g_s g)); [|discriminate].
+    destruct (step fx (g_s g) LShut) as [s'|] eqn:Es; [|discriminate]. injection H as <-.
+    pose proof (step_next fx _ _ _ Es) as Hn. unfold J. cbn [g_s g_run]. rewrite Hn. now split.
+  - brk H. injection H as <-. now split.
+  - brk H. injection H as <-. now split.
+  - brk H. injection H as <-.
     split; cbn [g_s g_run]; [now apply nodup_removeN|]. intros j Hj. apply Hlt. now apply in_removeN in Hj.
-  - match type of H with (if ?c then _ else _) = _ => destruct c end; [|discriminate].
-    injection H as <-. now split.
+  - brk H. injection H as <-.
+    split; cbn [g_s g_run]; [now apply nodup_removeN|]. intros j Hj. apply Hlt. now apply in_removeN in Hj.
+  - brk H. injection H as <-. now split.
+  - brk H. injection H as <-. now split.
 Qed.
 
 Lemma J_reachable d g : greachable d g -> J g.
@@ -98,7 +47,7 @@ Qed.
 Lemma settled_spec g :
   settledb g = true ->
   forall i, In i (g_run g) ->
-    (In i (lv (g_s g)) \/ In i (sp (g_s g))) /\ s_cancel (g_s g) = false /\ ~ In i (s_unrun (g_s g)).
+    (In i (lv (g_s g)) \/ In i (sp (g_s g))) /\ cxb g i = false /\ ~ In i (s_unrun (g_s g)).
 Proof.
   unfold settledb. intros H i Hi. rewrite forallb_forall in H. specialize (H i Hi).
   apply andb_prop in H as [Ho Hu]. apply negb_true_iff in Ho, Hu. unfold obliged in Ho.
@@ -134,19 +83,156 @@ Qed.
 Lemma main_le s : (main_alive s <= 1)%nat.
 Proof. unfold main_alive. destruct (s_pc s); lia. Qed.
 
+(* ---------------------------------------------------------------- histories *)
+Lemma grun_hist fx : forall ls g0 g,
+  run (gstep fx) g0 ls = Some g -> forall i, In i (g_run g) ->
+  In i (g_run g0) \/ exists k c b, In (GB (LFactory k c i b)) ls.
+Proof.
+  induction ls as [|l ls IH]; intros g0 g H i Hi.
+  - injection H as <-. now left.
+  - cbn [run] in H. destruct (gstep fx g0 l) as [g1|] eqn:E; [|discriminate].
+    destruct (IH g1 g H i Hi) as [H1|(k & c & b & H1)]; [|right; exists k, c, b; now right].
+    destruct l as [bl| |j|j|j|j| |m h r]; unfold gstep in E; brk E; injection E as <-; cbn [g_run] in H1;
+      try (left; exact H1); try (left; now apply in_removeN in H1).
+    destruct bl; cbn [gafter g_run] in H1; try (left; exact H1).
+    destruct H1 as [<-|H1]; [right; exists k, c, b; now left|now left].
+Qed.
+
+Lemma in_erase l : forall ls, In (GB l) ls -> In l (erase ls).
+Proof.
+  induction ls as [|x ls IH]; intros H; [destruct H|]. destruct H as [->|H].
+  - now left.
+  - destruct x; cbn [erase]; try (right; now apply IH); now apply IH.
+Qed.
+
+Lemma erase_in l : forall ls, In l (erase ls) -> l <> LShut -> In (GB l) ls.
+Proof.
+  induction ls as [|x ls IH]; intros H Hn; [destruct H|].
+  destruct x; cbn [erase] in H; try (right; now apply IH).
+  - destruct H as [->|H]; [now left|right; now apply IH].
+  - destruct H as [<-|H]; [congruence|right; now apply IH].
+Qed.
+
 (* ---------------------------------------------------------------- the theorems *)
 
-(* (i) Run() has returned and no server goroutine is still owed by the environment: nothing is left *)
+(* (i) Run() has returned: the only goroutines left are server goroutines, every one of them belongs
+   to an instance whose Stop() HAS RETURNED earlier in the history (so the Runnable contract obliges
+   it to end, and its context is cancelled as well) - and once they have ended nothing is left *)
+Theorem cluster_clean_hist d ls g :
+  run (gstep true) (ginit d) ls = Some g -> s_pc (g_s g) = PRet ->
+  census g = length (g_run g) /\
+  forall i, In i (g_run g) -> In (GB (LStopRet i)) ls /\ obliged g i = true.
+Proof.
+  intros Hr Hpc. assert (Hre : greachable d g) by now exists ls.
+  pose proof (greachable_acct d g Hre) as Hacct. pose proof Hacct as (_ & _ & Ha).
+  unfold acct_pc in Ha. rewrite Hpc in Ha. destruct Ha as (Hl & Hp & _).
+  split; [unfold census, main_alive, helpers; now rewrite Hpc|].
+  intros i Hi. split.
+  - destruct (grun_hist true ls (ginit d) g Hr i Hi) as [[]|(k & c & b & Hf)].
+    apply in_erase in Hf. pose proof (grun_erase true ls (ginit d) g Hr) as Hb. cbn [ginit g_s] in Hb.
+    destruct (hist_insts (erase ls) (init d) (g_s g) k c i b (acct_init d) Hb Hf) as [H|H].
+    + apply erase_in; [exact H|discriminate].
+    + exfalso. unfold insts_of in H. unfold lv in Hl. unfold sp in Hp.
+      apply map_eq_nil in Hl, Hp. rewrite Hl, Hp in H. destruct H.
+  - unfold obliged, lvb, spb. unfold lv in Hl. unfold sp in Hp. now rewrite Hl, Hp.
+Qed.
+
 Theorem cluster_census_clean d g :
   greachable d g -> s_pc (g_s g) = PRet -> settledb g = true -> census g = 0%nat.
 Proof.
-  intros Hre Hpc Hs. pose proof (greachable_acct d g Hre) as (_ & _ & Ha).
-  unfold acct_pc in Ha. rewrite Hpc in Ha. destruct Ha as (Hl & Hp & _).
-  unfold census, main_alive, helpers. rewrite Hpc. cbn [plus].
+  intros [ls Hr] Hpc Hs. destruct (cluster_clean_hist d ls g Hr Hpc) as [Hc Ho]. rewrite Hc.
   destruct (g_run g) as [|i r] eqn:Er; [reflexivity|]. exfalso.
-  destruct (settled_spec g Hs i) as ([Hi|Hi] & _); [rewrite Er; now left| |].
-  - rewrite Hl in Hi. destruct Hi.
-  - rewrite Hp in Hi. destruct Hi.
+  destruct (Ho i (or_introl eq_refl)) as [_ Hob].
+  unfold settledb in Hs. rewrite Er in Hs. cbn [forallb] in Hs. apply andb_prop in Hs as [Hs _].
+  apply andb_prop in Hs as [Hs _]. rewrite Hob in Hs. discriminate.
+Qed.
+
+(* every owed server goroutine can take its next step, whatever the cluster is doing (this one is
+   definitional: it restates the guards of LRunCall / GRunRet) *)
+Theorem cluster_owed_can_end fx g i :
+  In i (g_run g) -> obliged g i = true ->
+  if memN i (s_unrun (g_s g))
+  then exists g', gstep fx g (GB (LRunCall i)) = Some g' /\ g_run g' = g_run g
+  else exists g', gstep fx g (GRunRet i) = Some g' /\ g_run g' = removeN i (g_run g).
+Proof.
+  intros Hi Ho. destruct (memN i (s_unrun (g_s g))) eqn:E.
+  - unfold gstep, gguard, step. rewrite E. eexists. split; reflexivity.
+  - unfold gstep. apply memN_in in Hi. rewrite Hi, E. cbn [negb andb].
+    assert (Hg : negb (lvb (g_s g) i) || cxb g i = true).
+    { unfold obliged in Ho. apply orb_prop in Ho as [Ho|Ho]; [apply andb_prop in Ho as [Ho _]; now rewrite Ho|].
+      rewrite Ho. apply orb_true_r. }
+    rewrite Hg. eexists. split; reflexivity.
+Qed.
+
+(* ... and NOT definitional: from any state in which every remaining server goroutine is owed, the
+   environment alone (servers calling and leaving Run) reaches a state without server goroutines,
+   the cluster's own state untouched but for the not-yet-run list *)
+Definition env_label (l : glabel) : Prop :=
+  match l with GB (LRunCall _) | GRunRet _ => True | _ => False end.
+
+Lemma obliged_frame g g' i :
+  s_live (g_s g') = s_live (g_s g) -> s_stopping (g_s g') = s_stopping (g_s g) ->
+  s_cancel (g_s g') = s_cancel (g_s g) -> g_cx g' = g_cx g -> g_rc g' = g_rc g ->
+  obliged g' i = obliged g i.
+Proof. intros H1 H2 H3 H4 H5. unfold obliged, cxb, lvb, spb. now rewrite H1, H2, H3, H4, H5. Qed.
+
+Lemma removeN_length i l : (length (removeN i l) <= length l)%nat.
+Proof. induction l as [|x l IH]; [constructor|]. unfold removeN in *. cbn [filter]. destruct (negb (i =? x)); cbn [length]; lia. Qed.
+
+Lemma cluster_drain fx : forall n g,
+  (length (g_run g) <= n)%nat -> (forall i, In i (g_run g) -> obliged g i = true) ->
+  exists ls g', run (gstep fx) g ls = Some g' /\ g_run g' = [] /\ Forall env_label ls /\
+                s_pc (g_s g') = s_pc (g_s g) /\ s_live (g_s g') = s_live (g_s g) /\
+                s_stopping (g_s g') = s_stopping (g_s g) /\ s_entries (g_s g') = s_entries (g_s g).
+Proof.
+  induction n as [|n IH]; intros g Hn Ho.
+  - destruct (g_run g) eqn:E; [|cbn in Hn; lia]. exists [], g. repeat split; auto.
+  - destruct (g_run g) as [|i r] eqn:Er.
+    { exists [], g. repeat split; auto. }
+    assert (Hi : In i (g_run g)) by (rewrite Er; now left).
+    (* first let the goroutine call Run if it has not yet *)
+    assert (H1 : exists l1 g1, run (gstep fx) g l1 = Some g1 /\ Forall env_label l1 /\
+                 g_run g1 = g_run g /\ memN i (s_unrun (g_s g1)) = false /\
+                 s_pc (g_s g1) = s_pc (g_s g) /\ s_live (g_s g1) = s_live (g_s g) /\
+                 s_stopping (g_s g1) = s_stopping (g_s g) /\ s_entries (g_s g1) = s_entries (g_s g) /\
+                 s_cancel (g_s g1) = s_cancel (g_s g) /\ g_cx g1 = g_cx g /\ g_rc g1 = g_rc g).
+    { destruct (memN i (s_unrun (g_s g))) eqn:Eu.
+      - eexists [GB (LRunCall i)], _. cbn [run]. unfold gstep, gguard, step. rewrite Eu. cbn [gafter g_s g_run g_cx g_rc].
+        psimpl. split; [reflexivity|]. split; [repeat constructor|]. split; [reflexivity|].
+        split; [|repeat split]. cbn [g_s]. psimpl.
+        destruct (memN i (removeN i (s_unrun (g_s g)))) eqn:E2; [|reflexivity].
+        apply memN_in in E2. now apply not_in_removeN in E2.
+      - exists [], g. cbn [run]. repeat split; auto. }
+    destruct H1 as (l1 & g1 & R1 & F1 & Er1 & Eu1 & P1 & L1 & S1 & En1 & C1 & X1 & Rc1).
+    assert (Ho1 : forall j, obliged g1 j = obliged g j) by (intros j; now apply obliged_frame).
+    (* then it leaves *)
+    set (g2 := mkG (g_s g1) (removeN i (g_run g1)) (g_cx g1) (g_rc g1) (g_self g1) (g_ack g1)).
+    assert (R2 : gstep fx g1 (GRunRet i) = Some g2).
+    { unfold gstep. rewrite Er1. apply memN_in in Hi. rewrite Hi, Eu1. cbn [negb andb].
+      assert (Hg : negb (lvb (g_s g1) i) || cxb g1 i = true).
+      { pose proof (Ho i (or_introl eq_refl)) as Hob. rewrite <- Ho1 in Hob. unfold obliged in Hob.
+        apply orb_prop in Hob as [Hob|Hob]; [apply andb_prop in Hob as [Hob _]; now rewrite Hob|].
+        rewrite Hob. apply orb_true_r. }
+      rewrite Hg. unfold g2. now rewrite Er1. }
+    destruct (IH g2) as (l3 & g3 & R3 & E3 & F3 & P3 & L3 & S3 & En3).
+    + unfold g2. cbn [g_run]. rewrite Er1, Er. cbn [removeN filter]. rewrite N.eqb_refl. cbn [negb].
+      cbn [length] in Hn. pose proof (removeN_length i r). unfold removeN in H. lia.
+    + intros j Hj. unfold g2 in Hj. cbn [g_run] in Hj. apply in_removeN in Hj. rewrite Er1, Er in Hj.
+      rewrite <- (Ho j Hj), <- Ho1. now apply obliged_frame.
+    + exists (l1 ++ GRunRet i :: l3), g3. rewrite run_app, R1. cbn [run]. rewrite R2.
+      split; [exact R3|]. split; [exact E3|]. split; [apply Forall_app; split; [exact F1|constructor; [exact I|exact F3]]|].
+      unfold g2 in *. cbn [g_s] in *. repeat split; congruence.
+Qed.
+
+Theorem cluster_returned_drains d ls g :
+  run (gstep true) (ginit d) ls = Some g -> s_pc (g_s g) = PRet ->
+  exists ls' g', run (gstep true) g ls' = Some g' /\ Forall env_label ls' /\ census g' = 0%nat.
+Proof.
+  intros Hr Hpc. destruct (cluster_clean_hist d ls g Hr Hpc) as [_ Ho].
+  destruct (cluster_drain true (length (g_run g)) g (le_n _) (fun i Hi => proj2 (Ho i Hi)))
+    as (ls' & g' & R & E & F & P & _).
+  exists ls', g'. split; [exact R|]. split; [exact F|].
+  unfold census, main_alive, helpers. rewrite P, Hpc, E. reflexivity.
 Qed.
 
 (* (ii) while running, at every settled point: one goroutine in Run, one per server started and not
@@ -195,18 +281,6 @@ Proof.
   destruct Hi as [Hi|Hi]; apply negb_false_iff, memN_in in Hi; auto.
 Qed.
 
-(* every server goroutine that is owed has an enabled step of its own: it is never blocked by the cluster *)
-Theorem cluster_owed_can_end fx g i :
-  In i (g_run g) ->
-  if memN i (s_unrun (g_s g))
-  then exists s', step fx (g_s g) (LRunCall i) = Some s'
-  else exists g', gstep fx g (GRunRet i) = Some g' /\ g_run g' = removeN i (g_run g).
-Proof.
-  intros Hi. destruct (memN i (s_unrun (g_s g))) eqn:E.
-  - unfold step. rewrite E. eexists. reflexivity.
-  - unfold gstep. apply memN_in in Hi. rewrite Hi, E. eexists. split; reflexivity.
-Qed.
-
 (* the census observation is only ever accepted with the model's own numbers, in a settled state *)
 Theorem gcensus_label_sound fx g m h r g' :
   gstep fx g (GCensus m h r) = Some g' ->
@@ -224,17 +298,17 @@ Qed.
    error next to it, restarted again, a slow stop, then cancel and shutdown *)
 Definition cid : id := [97].
 Definition census_schedule : list glabel :=
-  [GB (LOffer [(cid, Some 0)]); GB (LRecv []); GB (LFactory cid 0 0 BReady); GB (LRunCall 0); GB LReady;
+  [GB (LOffer [(cid, Some 0)]); GB (LRecv []); GSent; GB (LFactory cid 0 0 BReady); GB (LRunCall 0); GB LReady;
    GCensus 1 0 1;
-   GB (LOffer [(cid, Some 1); ([98], Some 5)]); GB (LRecv [cid]); GB (LStopCall 0);
+   GB (LOffer [(cid, Some 1); ([98], Some 5)]); GB (LRecv [cid]); GSent; GB (LStopCall 0);
    GCensus 1 1 1;
    GB (LStopRet 0); GRunRet 0;
-   GB (LFactoryErr [98] 5); GB (LFactory cid 1 1 BNever); GB (LStopCall 1); GB (LStopRet 1);
-   GB (LRunCall 1); GRunRet 1;
+   GB (LFactoryErr [98] 5); GB (LFactory cid 1 1 BNever); GFailCancel 1; GB (LRunCall 1); GCtxSeen 1;
+   GB (LStopCall 1); GB (LStopRet 1); GRunRet 1;
    GCensus 1 0 0;
-   GB (LOffer [(cid, Some 2)]); GB (LRecv []); GB (LFactory cid 2 2 BReady); GB (LRunCall 2); GB LReady;
+   GB (LOffer [(cid, Some 2)]); GB (LRecv []); GSent; GB (LFactory cid 2 2 BReady); GB (LRunCall 2); GB LReady;
    GCensus 1 0 1;
-   GB LCancel; GB LShut; GB (LStopCall 2); GB (LStopRet 2); GB LRunReturn; GRunRet 2;
+   GB LCancel; GCtxSeen 2; GB LShut; GB (LStopCall 2); GB (LStopRet 2); GB LRunReturn; GRunRet 2;
    GCensus 0 0 0].
 
 Lemma census_schedule_runs :
@@ -242,15 +316,32 @@ Lemma census_schedule_runs :
             s_pc (g_s g) = PRet /\ settledb g = true /\ census g = 0%nat /\ s_next (g_s g) = 3.
 Proof. eexists. split; [vm_compute; reflexivity|]. repeat split. Qed.
 
-(* the bound is attained: two servers, both being stopped by slow helpers *)
+(* the bound is attained: two servers, both being stopped by slow helpers (shutdown through the closed
+   siphon: the servers' contexts stay live until their Stop() returns) *)
 Definition census_schedule_peak : list glabel :=
   [GB (LOffer [(cid, Some 0); ([98], Some 0)]); GB (LRecv []);
    GB (LFactory cid 0 0 BReady); GB (LRunCall 0); GB LReady;
    GB (LFactory [98] 0 1 BReady); GB (LRunCall 1); GB LReady;
-   GB LStopApi; GB LShut; GB (LStopCall 0); GB (LStopCall 1)].
+   GB LClose; GB LShut; GB (LStopCall 0); GB (LStopCall 1)].
 
 Lemma census_schedule_peak_runs :
   exists g, run (gstep true) (ginit false) census_schedule_peak = Some g /\
             settledb g = true /\ census g = 5%nat /\ started_not_stopped (g_s g) = 2%nat /\
             helpers (g_s g) = 2%nat.
+Proof. eexists. split; [vm_compute; reflexivity|]. repeat split. Qed.
+
+(* the Stop() path: runCancel() fires before the shutdown round, every server is owed at once; and a
+   server that gave up by itself stays in the collection and in GetServerCount *)
+Definition census_schedule_stop : list glabel :=
+  [GB (LOffer [(cid, Some 0); ([98], Some 0)]); GB (LRecv []); GSent;
+   GB (LFactory cid 0 0 BReady); GB (LRunCall 0); GB LReady;
+   GB (LFactory [98] 0 1 BReady); GB (LRunCall 1); GB LReady;
+   GSelfExit 1; GCensus 1 0 1; GB (LCount 2);
+   GB (LOffer [(cid, Some 0); ([98], Some 0)]); GB (LRecv [cid; [98]]); GSent; GB (LCount 2);
+   GB LStopApi; GShutStop; GCtxSeen 0; GB (LStopCall 0); GB (LStopCall 1)].
+
+Lemma census_schedule_stop_runs :
+  exists g, run (gstep true) (ginit false) census_schedule_stop = Some g /\
+            settledb g = false /\ g_rc g = true /\ obliged g 0 = true /\ g_self g = [1] /\ g_run g = [0] /\
+            census g = 4%nat.
 Proof. eexists. split; [vm_compute; reflexivity|]. repeat split. Qed.
